@@ -73,7 +73,7 @@ def history(r, ctx, suite, cic, mic, n):
                 ic = 4294967295
             if r.random() < .15:
                 # exception-response: invocation-counter error reporting some counter (lower, equal or higher than the client's)
-                plain = b"\xd8\x01\x06" + r.choice([0, 1, 5, cic, cic + 1, cic + 1000, 4294967295]).to_bytes(4, "big")
+                plain = b"\xd8\x01\x06" + min(4294967295, r.choice([0, 1, 5, cic, cic + 1, cic + 1000, 4294967295])).to_bytes(4, "big")
             else:
                 plain = plain_apdu(kind)
             b = peer.ggc(plain, ic=ic)
